@@ -117,6 +117,7 @@ func TestSim(t *testing.T) {
 	agg := &Agg{Prop: prop, Worker: worker, Probes: map[string]int{}, Faults: map[string]int{}, Strategies: map[string]int{}}
 	shapes := map[string]bool{}
 	sigs := map[string]int{}
+	var ran []uint64
 	start := time.Now()
 	for k := 0; k < maxRuns; k++ {
 		if time.Since(start) > budget {
@@ -131,6 +132,10 @@ func TestSim(t *testing.T) {
 			os.WriteFile(out+".cur", cb, 0o644)
 		}
 		res := RunOne(t, spec)
+		if len(res.Violations) > 0 {
+			res.PrevSeeds = append([]uint64(nil), ran...)
+		}
+		ran = append(ran, gs)
 		agg.Runs++
 		if os.Getenv("VSIM_HASHES") != "" {
 			agg.Hashes = append(agg.Hashes, fmt.Sprintf("%d:%s:%d:%d", gs, res.Hash, res.Steps, len(res.Violations)))
